@@ -581,6 +581,15 @@ class Session:
                 old = vm.remove_bound()
                 self.expect_all(k + ".remove")
                 self.check_free_list(k)
+                # with the bounds removed every name reads its value in both coordinate conventions
+                for n in sorted(self.installed):
+                    got = float(vm.get(n, val_in_fit=True))
+                    if got != self.val[self.gid[n]]:
+                        self.fail("bound-inverse", k + ".removed", "after remove_bound() get(%s) still returns a transformed coordinate %r for the value %r: a bound was left installed" % (n, got, self.val[self.gid[n]]))
+                    for m in self.members[self.gid[n]]:
+                        g2 = float(vm.get(m, val_in_fit=True))
+                        if g2 != self.val[self.gid[n]]:
+                            self.fail("tied-read-equal", k + ".removed", "after remove_bound() the tied names %s read different values through get(): %s gives %r, value %r" % (self.members[self.gid[n]], m, g2, self.val[self.gid[n]]))
                 vm.set_bound({n: tuple(b) for n, b in old.items() if n not in self.bounds or self.bounds[n][2] is None})
                 for n, b in self.bounds.items():
                     if b[2] is not None and n in old:
